@@ -29,6 +29,11 @@ pub const FILLERS: &[&str] = &[
     "<title>t</title\n>",
     "<textarea>x</textarea >",
     "<script><!--\ndocument.write('<script src=\"a.js\"><\\/script>');\n//--></script>",
+    // the same guard with a REAL inner end tag (double-escaped script data: the inner </script> does not close the element)
+    "<script><!-- document.write('<script src=x></script>'); //--></script>",
+    // custom elements whose names extend the name of a raw-text element
+    "<title-bar>t</title-bar>",
+    "<style-guide>s</style-guide><iframe-resizer></iframe-resizer>",
 ];
 const P_K: usize = 4;
 
